@@ -7,6 +7,8 @@ HERE = os.path.dirname(os.path.abspath(__file__)); VERIF = os.path.dirname(HERE)
 sys.path.insert(0, HERE)
 GEN = {"C01": "Tetl/C01/GenSize.lean (gen/sizetype.py: the smallest_size_t threshold chain, storage selection and layout switch as the header spells them)",
        "C10": "Tetl/C10/Gen.lean (gen/translate.py: the overflow checkers, abs, parseDigit for every instantiated type)",
+       "C12": "Tetl/C12/Gen.lean (gen/translate.py: the four duration_cast_impl::cast bodies for 16 representation pairs, CF::num / CF::den symbolic)",
+       "C14": "Tetl/C14/Gen.lean (gen/translate.py: 640 instantiations of the straight-line bit / saturation / comparison kernels), GenDispatch.lean (gen/c14_genprops.py)",
        "C15": "Tetl/C15/GenBuiltins.lean (gen/c15_defs.py: trait -> builtin / defining formula, g++ and clang branches), GenLimits.lean (gen/c15_limits.py: numeric_limits members as spelled)",
        "C02": "TetlProofs/C02/Props.lean (gen/c02_props.py, from the other properties' theorem statements)",
        "C05": "Tetl/C05/Sites.lean (gen/sites.py)", "C11": "Tetl/C11/Gen.lean (gen/translate.py)",
